@@ -1313,6 +1313,91 @@ def run_indep(ctx, specs):
 
 
 # --------------------------------------------------------------------------
+# (c4) fitted GPs whose kernel has an input-dependent diagonal k(x, x) (multi-fidelity resource kernels)
+# --------------------------------------------------------------------------
+def gen_reskernel_spec(rng, k=None):
+    kinds = ["expdecay", "freezethaw", "product_fabolas", "expdecay_warped"]
+    return dict(seed=rng.randrange(10 ** 6), kind=kinds[k % len(kinds)] if k is not None else rng.choice(kinds),
+                dx=rng.choice([1, 2]), n=rng.randint(6, 12), head=rng.choice(["ei", "lcb"]), kappa=rng.uniform(0.3, 3.0),
+                jitter=rng.choice([0.01, 0.1]), inv_bw=[rng.uniform(1.0, 4.0), rng.uniform(1.0, 4.0)],
+                noise=10 ** rng.uniform(-2.5, -1), normalize=rng.random() < 0.5,
+                x=[rng.uniform(0.1, 0.9) for _ in range(3)])
+
+
+def run_gp_resource_kernel(ctx, specs):
+    import syne_tune.optimizer.schedulers.searchers.bayesopt.models.meanstd_acqfunc_impl as M
+    from syne_tune.config_space import uniform
+    from syne_tune.optimizer.schedulers.searchers.utils.hp_ranges_factory import make_hyperparameter_ranges
+    from syne_tune.optimizer.schedulers.searchers.bayesopt.datatypes.common import dictionarize_objective, INTERNAL_METRIC_NAME
+    from syne_tune.optimizer.schedulers.searchers.bayesopt.utils.test_objects import create_tuning_job_state
+    from syne_tune.optimizer.schedulers.searchers.bayesopt.gpautograd.constants import OptimizationConfig
+    from syne_tune.optimizer.schedulers.searchers.bayesopt.gpautograd.kernel import (
+        Matern52, ExponentialDecayResourcesKernelFunction, ExponentialDecayResourcesMeanFunction,
+        FreezeThawKernelFunction, FreezeThawMeanFunction, FabolasKernelFunction, ProductKernelFunction)
+    from syne_tune.optimizer.schedulers.searchers.bayesopt.gpautograd.warping import WarpedKernel, Warping
+    from syne_tune.optimizer.schedulers.searchers.bayesopt.gpautograd.mean import ScalarMeanFunction
+    from syne_tune.optimizer.schedulers.searchers.bayesopt.gpautograd.gp_regression import GaussianProcessRegression
+    from syne_tune.optimizer.schedulers.searchers.bayesopt.models.gp_model import GaussProcEmpiricalBayesEstimator
+    for spec in specs:
+        case = dict(kind="reskernel", spec=spec)
+        rs = np.random.RandomState(spec["seed"])
+        dx = spec["dx"]
+        d = dx + 1   # last coordinate = encoded resource level
+        with warnings.catch_warnings():
+            warnings.simplefilter("ignore")
+            hp = make_hyperparameter_ranges({"x%d" % i: uniform(0.0, 1.0) for i in range(d)})
+            X = [tuple(float(t) for t in rs.uniform(0.05, 0.95, size=d)) for _ in range(spec["n"])]
+            Y = [dictionarize_objective(float(np.sum((np.array(x[:dx]) - 0.4) ** 2) + 0.5 * np.exp(-3.0 * x[-1]))) for x in X]
+            state = create_tuning_job_state(hp_ranges=hp, cand_tuples=X, metrics=Y)
+            kind = spec["kind"]
+            if kind in ("expdecay", "expdecay_warped"):
+                kernel = ExponentialDecayResourcesKernelFunction(kernel_x=Matern52(dx, ARD=True), mean_x=ScalarMeanFunction())
+                mean = ExponentialDecayResourcesMeanFunction(kernel=kernel)
+                if kind == "expdecay_warped":
+                    kernel = WarpedKernel(kernel=kernel, warpings=[Warping(dimension=d, coordinate_range=(0, dx))])
+            elif kind == "freezethaw":
+                kernel = FreezeThawKernelFunction(kernel_x=Matern52(dx, ARD=True), mean_x=ScalarMeanFunction())
+                mean = FreezeThawMeanFunction(kernel=kernel)
+            else:
+                kernel = ProductKernelFunction(Matern52(dx, ARD=True), FabolasKernelFunction())
+                mean = ScalarMeanFunction()
+            gpm = GaussianProcessRegression(kernel=kernel, mean=mean, random_seed=0,
+                                            optimization_config=OptimizationConfig(lbfgs_tol=1e-3, lbfgs_maxiter=3, verbose=False, n_starts=1))
+            est = GaussProcEmpiricalBayesEstimator(active_metric=INTERNAL_METRIC_NAME, gpmodel=gpm, num_fantasy_samples=1,
+                                                   normalize_targets=spec["normalize"])
+            params = est.get_params()
+            for name in params:
+                if "inv_bw" in name:
+                    params[name] = spec["inv_bw"][0] if name.endswith("0") else spec["inv_bw"][1]
+            params["noise_variance"] = spec["noise"]
+            est.set_params(params)
+            pred = est.fit_from_state(state, update_params=False)
+            acq = (M.EIAcquisitionFunction(pred, jitter=spec["jitter"]) if spec["head"] == "ei"
+                   else M.LCBAcquisitionFunction(pred, kappa=spec["kappa"]))
+            x = np.array(spec["x"][:d], dtype=float)
+            ctx.count(("reskernel", spec), nontrivial=True)
+            ctx.h("resource_kernel", kind + "/" + spec["head"])
+            what = "kernel with input-dependent diagonal: " + kind
+            v, g = check_acq_gradient(ctx, acq, x, {}, spec["head"], case, what, v_scale_tol=1e-6)
+            if np.isnan(v):
+                continue
+            for i in range(d):   # relative check (EI values can be tiny), all coordinates incl. the resource one
+                def f(t):
+                    xx = x.copy()
+                    xx[i] = t
+                    return float(np.asarray(acq.compute_acq(xx.reshape(1, -1))).reshape(-1)[0])
+                fd, fd_err, ok = fd_estimate(f, float(x[i]), 1e-4)
+                if not ok:
+                    continue
+                if not abs(fd - g[i]) <= 1e-4 * max(abs(fd), abs(g[i])) + 1e-12 + 20.0 * fd_err:
+                    ctx.violation("property", "%s on a GP with %s kernel: d acq / d x[%d]%s = %r but central differences of "
+                                  "compute_acq give %r" % (spec["head"], kind, i, " (resource coordinate)" if i == d - 1 else "",
+                                                           float(g[i]), fd), case=case,
+                                  signature=dict(function="compute_acq_with_gradient", head=spec["head"], predictor=what,
+                                                 defect="input_gradient_relative", coordinate="resource" if i == d - 1 else "config"))
+
+
+# --------------------------------------------------------------------------
 # (a2) explicit predictor argument with locally linear stub predictors (exact Jacobians)
 # --------------------------------------------------------------------------
 def make_linear_stub_class():
@@ -1723,7 +1808,8 @@ def run(ctx, replay=None):
                 "differences (step 1e-4, wider than the branch); both parameter encodings (logarithm, positive/softrelu) with "
                 "parameters exactly ON their bounds, checked with one-sided differences pointing into the box; call sequences "
                 "of the objective on one buffer mutated in place / repeated / alternating buffers vs fresh evaluations; "
-                "both settings of the verbose switch; the fitting objectives of the one-GP-per-rung-level marginal likelihoods "
+                "(c4) EI / LCB on GPs whose kernel diagonal depends on the input (exp-decay, freeze-thaw, product with Fabolas, "
+                "warped exp-decay), gradient in all coordinates incl. the resource one; both settings of the verbose switch; the fitting objectives of the one-GP-per-rung-level marginal likelihoods "
                 "(independent and HyperTune); fit A -> acquisition function -> same estimator fit again -> fit-A acquisition "
                 "function asked again; (c3) EI / LCB on independent GPs per rung level with batches of 3..7 inputs at "
                 "mixed, ungrouped rung levels, batch rows vs single-input calls vs closed form; (c2) EI and LCB on HyperTune independent-GP surrogates with ensemble distributions on 1, 2, 3 rung levels. "
@@ -1754,6 +1840,8 @@ def run(ctx, replay=None):
             run_indep(ctx, [replay["spec"]])
         elif kind == "fit_mf":
             run_fit_multifidelity(ctx, [replay["spec"]])
+        elif kind == "reskernel":
+            run_gp_resource_kernel(ctx, [replay["spec"]])
         return
     n_head = ctx.n(250, 2500)
     specs = [gen_head_spec(rng, head) for head in ("ei", "lcb", "eipu", "cei") for _ in range(n_head)]
@@ -1766,6 +1854,7 @@ def run(ctx, replay=None):
                [gen_gp_tail_spec(rng) for _ in range(ctx.n(40, 400))])
     run_hypertune(ctx, [gen_hypertune_spec(rng, k) for k in range(ctx.n(60, 900))])
     run_indep(ctx, [gen_indep_spec(rng, k) for k in range(ctx.n(30, 500))])
+    run_gp_resource_kernel(ctx, [gen_reskernel_spec(rng, k) for k in range(ctx.n(32, 500))])
     run_linear_explicit(ctx, [gen_linear_spec(rng) for _ in range(ctx.n(150, 2000))])
     run_fit_objective(ctx, [gen_fit_spec(rng, k) for k in range(ctx.n(80, 600))])
     run_fit_multifidelity(ctx, [gen_fit_mf_spec(rng, k) for k in range(ctx.n(16, 200))])
